@@ -5,7 +5,7 @@ SPEC = {
     "targets": ["Properties/C14.vo", "Run/C14.vo"],
     "theorems": {"Properties.C14": ["C14_lock_mutex", "C14_inflight_bound", "C14_no_identical_inflight",
                                     "C14_side_cond_necessary", "C14_lock_key_determines_cache_keys", "C14_no_identical_inflight_questions",
-                                    "C14_source_structure", "C14_served_once", "C14_one_run_per_lifetime",
+                                    "C14_source_structure", "C14_gc_atomicity_necessary", "C14_served_once", "C14_one_run_per_lifetime",
                                     "C14_no_lost_unlock", "C14_cache_model_refines_lts", "C14_process_job_refines_lts",
                                     "C14_timed_refines_untimed", "C14_answer_reused_for_cache_lifetime", "C14_timed_invariants",
                                     "C14_nonvacuous"]},
@@ -31,7 +31,10 @@ SPEC = {
         "keys the real client holds (same partition of the sample questions and the same strings)",
         "key table (observed every run): each question asked alone, lock keys snapshotted from inside the server handler; identical "
         "wire requests must be guarded by the same lock key (the side condition of the theorems)",
-        "concurrency oracle (testing, not proof): stress runs of the real client + worker pool + net/http against a fake server with a "
+        "source-level atomicity facts re-read from the Go AST every run (obligation C14_source_structure): queryCache.get/set/gc each hold "
+        "c.mu for their whole body, lock's Wait is re-checked in a loop, processJob is only called by queryWorker",
+        "concurrency oracle (testing, not proof): stress runs (one in three with the cache cleaner looping concurrently, plus two directed "
+        "sweeps of 165 distinct questions x 3 with the cleaner running) of the real client + worker pool + net/http against a fake server with a "
         "client-side transport recorder (request start .. response body closed)",
         "harness: schedulers, recorders, fake server, term printers",
     ],
